@@ -111,6 +111,7 @@ fn cmd_run(a: &Args) -> i32 {
 		cov: run.cov.clone(),
 		trace_hash: run.trace_hash(),
 		aborted,
+		known_hits: run.known_hits.clone(),
 	};
 	if let Some(v) = viol.first() {
 		let rf = ReplayFile {
@@ -185,6 +186,7 @@ fn cmd_replay(a: &Args) -> i32 {
 		cov: run.cov.clone(),
 		trace_hash: run.trace_hash(),
 		aborted,
+		known_hits: run.known_hits.clone(),
 	};
 	write_out(a.kv.get("out"), &res);
 	let same = viol
